@@ -61,7 +61,8 @@ def build_t(ops, heap, root=T):
     for o in ops:
         op, arg = o['op'], o['arg']
         if op == '.':
-            t = getattr(t, arg['s'])
+            name = arg['s']
+            t = getattr(t, '__')(name[2:]) if name.startswith('__') else getattr(t, name)
         elif op == '[':
             t = t[build_arg(arg, heap)]
         elif op == '(':
